@@ -330,6 +330,44 @@ func init() {
 				rep.Validated++
 			}
 		}
+		// every reply arrives without the next request: the directed multi-key gets whose keys are
+		// spread over the tiers (see C01), each also sent WITHOUT the harness's trailing no-op —
+		// bytes that come only once the next request is sent were held back
+		for ci, cfg := range fullStackConfigs(tier) {
+			if cfg.Orca != "l1l2" {
+				continue
+			}
+			for _, sc := range mixedTierGets(cfg, fmt.Sprintf("C08-%d-mixed", ci)) {
+				var out Outcome
+				for attempt := 0; attempt < 3; attempt++ {
+					out = RunScenarioO(d, sc, 3*time.Second, true)
+					if !out.Tainted {
+						break
+					}
+				}
+				if out.Tainted {
+					rep.Tainted++
+					continue
+				}
+				rep.Evaluations++
+				rep.Distribution["unprompted-reply-scenarios"]++
+				for _, v := range out.Probed {
+					if m, ok := v.Replay.(map[string]interface{}); ok {
+						m["scenario"] = describeScenario(sc)
+					}
+					rep.Violations = append(rep.Violations, v)
+				}
+				for _, m := range out.Misses {
+					rep.Violations = append(rep.Violations, Violation{What: fmt.Sprintf("reply differs from the single-map specification at step %d (%s): %s", m.Step, out.Descs[m.Step], m.Verdict),
+						Signature: classifyMiss(sc, m.Step, out.Obs), Replay: map[string]interface{}{"scenario": describeScenario(sc), "step": m.Step}})
+				}
+				if out.Div != nil {
+					rep.Divergences = append(rep.Divergences, out.Div)
+					continue
+				}
+				rep.Validated++
+			}
+		}
 		rep.Distinct = len(distinct)
 	}
 }
